@@ -113,15 +113,26 @@ def oneLinersOK (f : File) : Bool :=
                      && (evL stmts).all (Ev.checkLineIs lb))
       | _ => true
 
+/-- every function scope except the first (the file scope sorts first: the package clause
+    precedes every function) is the brace pair of a block of the file -/
+def scopesOK (f : File) : Bool :=
+  match functionScopes f with
+  | none => false
+  | some fs => (fs.drop 1).all (fun p => (fileBlks f).any (fun b => b.lo == p.1 && b.hi == p.2))
+
 def wfFile (f : File) : Bool :=
   f.decls.all shapeD && (fileBlks f).all (fun b => blkOK f b && forcedOK b) && oneLinersOK f
+
+/-- the additional hypothesis of the func-granularity clause -/
+def wfFileFunc (f : File) : Bool := wfFile f && scopesOK f
 
 /-- which clause fails (for the evidence) -/
 def wfReasons (f : File) : List String :=
   (if f.decls.all shapeD then [] else ["shape"]) ++
   (if (fileBlks f).all (blkOK f) then [] else ["blocks"]) ++
   (if (fileBlks f).all forcedOK then [] else ["forced"]) ++
-  (if oneLinersOK f then [] else ["one-liners"])
+  (if oneLinersOK f then [] else ["one-liners"]) ++
+  (if scopesOK f then [] else ["scopes"])
 
 /-- the statement of C01/C02 about one position: a statement boundary of a block of the file -/
 def legalLine (f : File) (m : Nat) : Bool :=
